@@ -181,6 +181,9 @@ func genMergeInputs(c *ctx, k int, syn bool) []*segEnt {
 	for i := 0; i < k; i++ {
 		o := base
 		o.NDocs = c.R.Intn(8)
+		if c.R.Chance(4) {
+			o.NDocs = 8 + c.R.Intn(10)
+		}
 		if c.R.Chance(8) {
 			o.NDocs = 0
 		}
@@ -194,6 +197,12 @@ func genMergeInputs(c *ctx, k int, syn bool) []*segEnt {
 			o.NFields = 1 + c.R.Intn(len(zh.FieldNames))
 		}
 		b := zh.GenBatch(c.R, o)
+		if c.R.Chance(3) {
+			// a doc-value field missing from a run of documents: whole empty doc-value chunks between populated ones
+			if sb := sparsify(c, cloneBatch(b)); sb.InDomain() {
+				b = sb
+			}
+		}
 		if syn {
 			b = zh.AddSynDocs(c.R, b, o.IDBase)
 		}
@@ -252,7 +261,15 @@ func survivors(mc *mergeCase) uint64 {
 
 // mergeRounds drives `rounds` merge chains; f is called for every merge performed.
 func mergeRounds(c *ctx, rounds int, syn bool, parts []int, checkMaps bool, prop string, extra func(mc *mergeCase, r *mergeResult, spec sx.V) string) bool {
+	savedDV := zap.LegacyChunkMode
+	defer func() { zap.LegacyChunkMode = savedDV }()
 	for round := 0; round < rounds; round++ {
+		// the doc-value chunk size is a process-wide setting: one value per round, for builds, merges and reads
+		zap.LegacyChunkMode = savedDV
+		if c.R.Chance(2) {
+			zap.LegacyChunkMode = dvChunkSizes[c.R.Intn(len(dvChunkSizes))]
+		}
+		c.Count(fmt.Sprintf("dvchunk=%d", zap.LegacyChunkMode))
 		pool := genMergeInputs(c, 2+c.R.Intn(3), syn)
 		steps := 1 + c.R.Intn(3)
 		ok := true
